@@ -9,11 +9,14 @@
 //	frames  readHandshake / readRecordOrCCS stepped on raw connections fed with arbitrary bytes,
 //	        buffer lengths after each step (frames.go)
 //	live    live endpoints in every handshake state and after the handshake: arbitrary
-//	        records, floods, a watchdog per case (live.go)
+//	        records, floods, a watchdog per case (live.go); scripted peers that send arbitrary
+//	        certificate lists (script.go)
 package main
 
 import (
+	"os"
 	"strings"
+	"sync"
 
 	"verifharness/internal/hx"
 )
@@ -42,13 +45,40 @@ func execute(desc string) string {
 	return out
 }
 
+// emitBatch executes independent cases concurrently and writes them in the given order.
+var emitBatch func(descs []string)
+
 func main() {
 	o := hx.ParseOpts()
 	tr := hx.NewTrace(o.Out)
 	defer tr.Close()
 	emit := func(desc string) { tr.Line(desc, execute(desc)) }
+	// cases that mostly WAIT (a datagram endpoint whose peer went silent ends by its own timers)
+	// are executed several at a time; the trace keeps the order of the generator
+	emitBatch = func(descs []string) {
+		res := make([]string, len(descs))
+		sem := make(chan struct{}, 12)
+		var wg sync.WaitGroup
+		for i := range descs {
+			wg.Add(1)
+			sem <- struct{}{}
+			go func(i int) {
+				defer wg.Done()
+				defer func() { <-sem }()
+				res[i] = execute(descs[i])
+			}(i)
+		}
+		wg.Wait()
+		for i := range descs {
+			tr.Line(descs[i], res[i])
+		}
+	}
 
 	if o.Replay != "" {
+		if os.Getenv("C09_PAR") != "" { // development: replay a long file twelve cases at a time
+			emitBatch(hx.ReplayCases(o.Replay))
+			return
+		}
 		for _, c := range hx.ReplayCases(o.Replay) {
 			emit(c)
 		}
